@@ -129,6 +129,15 @@ var fatalCalls = map[string]bool{
 	"github.com/aws/aws-sdk-go/aws/session.Must": true, "log.Panic": true, "log.Panicf": true, "github.com/sirupsen/logrus.Panic": true, "github.com/sirupsen/logrus.Panicf": true,
 }
 
+// describeValTyped: like describeVal, with the root of a field path always named by its type.
+func describeValTyped(v ssa.Value) string {
+	root, names := fieldPath(v)
+	if len(names) > 0 {
+		return short(types.TypeString(root.Type(), nil)) + "." + strings.Join(names, ".")
+	}
+	return describeVal(v)
+}
+
 func describeVal(v ssa.Value) string {
 	root, names := fieldPath(v)
 	if len(names) > 0 {
